@@ -26,7 +26,7 @@
 (* tokens (a relation, because identifier aliasing can map two name-level  *)
 (* rights onto one implementation right).                                  *)
 (***************************************************************************)
-EXTENDS CCSpec
+EXTENDS CCSpec, ChainOps
 
 CONSTANTS Dims,          \* dimension names
           Kind,          \* [Dims -> {"H","A"}]
@@ -339,15 +339,13 @@ KeyGenA(u, pol) ==
                   /\ Couple(v, "ok", KeyGen(g, u, pol), {"C09"})
                   /\ UNCHANGED <<st, msk, nsid, nid, mpks, encs, lnk, idu, saved>>
 
-\* refresh_coordinate_keys on one chain (after commit c766bd3)
+\* refresh_coordinate_keys on one chain (after commit c766bd3): the chain arithmetic is ChainOps!RefreshKeepChain,
+\* the operator whose inductive invariant ChainInd.tla discharges for all histories of one right
 Strip(ch) == [i \in 1..Len(ch) |-> [sid |-> ch[i].sid, h |-> ch[i].h]]
-RECURSIVE CommonPrefix(_, _)
-CommonPrefix(a, b) == IF a = <<>> \/ b = <<>> \/ a[1] # b[1] THEN <<>> ELSE <<a[1]>> \o CommonPrefix(Tail(a), Tail(b))
 RefreshChain(uc, mc) ==
     LET ms == Strip(mc)
-        p == IF \E i \in 1..Len(ms) : ms[i] = uc[1] THEN CHOOSE i \in 1..Len(ms) : ms[i] = uc[1] ELSE 0
-    IN IF p = 0 THEN (IF "stale_kept" \in Mut THEN ms \o <<uc[1]>> ELSE ms)   \* before c766bd3
-       ELSE SubSeq(ms, 1, p - 1) \o <<uc[1]>> \o CommonPrefix(Tail(uc), SubSeq(ms, p + 1, Len(ms)))
+    IN IF "stale_kept" \in Mut /\ PosIn(ms, uc[1]) = 0 THEN ms \o <<uc[1]>>   \* before c766bd3
+       ELSE RefreshKeepChain(uc, ms)
 
 \* toks a key can certainly use (through the links), for the keep rule of the reference spec
 UsableToks(u) == {p[2] : p \in {q \in lnk : \E s \in Held(u) : s.sid = q[1]}}
